@@ -334,8 +334,9 @@ type c14case struct {
 }
 
 func c14run1(cas c14case) *Violation {
-	resetGlobals()
-	slog.AddFlags(slog.Lcaller | slog.LnoInterrupt)
+	caseSeq++
+	resetAlt(caseSeq)
+	setFlagsVia(slog.LstdFlags|slog.Lcaller|slog.LnoInterrupt, caseSeq/2)
 	rec := &recorder{}
 	w := &plainW{"w", rec}
 	var l slog.Logger
